@@ -157,7 +157,9 @@ def check(prop, tier, seed):
     resps = common.kv("gen", [{"id": i, "src": s, "want": ["rust"]} for i, s in enumerate(srcs)], timeout=1800)
     for g, src, o in zip(groups, srcs, resps):
         if o["res"]["t"] != "ok":
-            raise ToolError("type grammar not accepted: %s\n%s" % (json.dumps(o["res"])[:300], src))
+            # C13 speaks about what IS emitted; whether this file should have been accepted is C09/C10's business
+            run.notes["type_grammars_rejected_by_generate"] = run.notes.get("type_grammars_rejected_by_generate", 0) + 1
+            continue
         sites = use_sites(o["res"]["rust"], len(g))
         for i, p in enumerate(g):
             run.evaluations += 1
@@ -179,7 +181,8 @@ def check(prop, tier, seed):
     where = {}
     for g, src, o in zip(dgroups, dsrcs, dresps):
         if o["res"]["t"] != "ok":
-            raise ToolError("type grammar not accepted: %s" % json.dumps(o["res"])[:300])
+            run.notes["type_grammars_rejected_by_generate"] = run.notes.get("type_grammars_rejected_by_generate", 0) + 1
+            continue
         sites = use_sites(o["res"]["rust"], len(g))
         for i, t in enumerate(g):
             rid = len(recs)
@@ -211,7 +214,8 @@ def check(prop, tier, seed):
     main = [IDENTITY_PRELUDE]
     for k, (g, src, o) in enumerate(zip(rgroups, rsrcs, rresps)):
         if o["res"]["t"] != "ok":
-            raise ToolError("type grammar not accepted: %s" % json.dumps(o["res"])[:300])
+            run.notes["type_grammars_rejected_by_generate"] = run.notes.get("type_grammars_rejected_by_generate", 0) + 1
+            continue
         with open(os.path.join(cdir, "g%d.rs" % k), "w") as f:
             f.write(o["res"]["rust"])
         main.append("mod g%d;" % k)
